@@ -150,4 +150,10 @@ class SimSource(object):
             sched.check_alive()
         entry['ok'] = True
         img = Image.frombytes('RGB', tuple(query.size), render(query.bbox, query.size, gen, ocean=bool(sh.get('ocean'))))
-        return ImageSource(img, size=tuple(query.size), image_opts=self.image_opts, cacheable=True)
+        cacheable = True
+        if sh.get('src_age'):
+            # a source that knows how old its data is (as a cache used as the source of another cache does): the
+            # timestamp travels with the image
+            from mapproxy.cache.tile import CacheInfo
+            cacheable = CacheInfo(cacheable=True, timestamp=self.world.clock.now - sh['src_age'])
+        return ImageSource(img, size=tuple(query.size), image_opts=self.image_opts, cacheable=cacheable)
